@@ -656,7 +656,12 @@ HUGE_LITERALS = ['9^999999999', '7*(9^99999999)', '2^1024', '99^999', '2^9999999
                  # whole numbers of 5 000 digits, negated, joined, compared, flattened
                  '-' + '9' * 5000 + '&""', '(0-' + '9' * 5000 + ')&"x"', '9' * 5000 + '&""', 'LEN(-' + '7' * 4400 + ')',
                  '(0-' + '9' * 5000 + ')=(0-' + '9' * 5000 + ')', 'CONCATENATE(0-' + '9' * 5000 + ',1)', 'SUM(-' + '1' * 5000 + ',1)&""',
-                 'TEXTJOIN(",",TRUE,0-' + '9' * 5000 + ')']
+                 'TEXTJOIN(",",TRUE,0-' + '9' * 5000 + ')',
+                 # shapes whose cost grew with the SQUARE of their length (a pattern re-scanned from every position, a list copied
+                 # once per item, a loop over the digits of a whole number of any size)
+                 'TEXT(1,"' + 'a' * 60000 + '0")', 'TEXT(1,"' + 'a' * 60000 + '0a")', 'a.' * 30000 + 'a', 'SUM(' + '1,' * 100000 + '1)',
+                 '{' + '1;' * 100000 + '1}', '{' + '1,2;' * 50000 + '1,2}', 'BASE(' + '1' * 60000 + ',2)', 'LEN(BASE(' + '7' * 40000 + ',36))',
+                 'F(' + '1\\' * 100000 + '1)']
 
 
 class Blowups(Sub):
